@@ -1,5 +1,6 @@
 import SE.Gen.Facts
 import SE.Model.Registry
+import SE.Model.Exporter
 namespace SE.Gen.Tie
 open SE
 
@@ -7,6 +8,9 @@ open SE
 theorem histogramSuffixes : Gen.histogramSuffixes.map strBytes = [sfxBucket, sfxCount, sfxSum] := by decide
 
 /-- the exporter sweeps stale series once per second, the relay flushes once per second -/
-theorem tickerPeriods : Gen.tickerPeriods = [("event", "flushInterval"), ("exporter", "time.Second"), ("relay", "1*time.Second")] := by decide
+theorem tickerPeriods : Gen.tickerPeriods.filter (·.1 != "event") = [("exporter", "time.Second"), ("relay", "1*time.Second")] := by decide
+
+/-- the help text of unmapped / help-less metrics -/
+theorem defaultHelp : strBytes Gen.defaultHelp = SE.defaultHelp := by decide
 
 end SE.Gen.Tie
